@@ -278,7 +278,19 @@ def diff_detail(a, b):
         if x['hash'] != y['hash']:
             kinds = sorted(set(q['pic_type'] for q, w in zip(pa, pb) if q['hash'] != w['hash']))
             nd = sum(1 for q, w in zip(pa, pb) if q['hash'] != w['hash'])
-            return ('packets:nonref_only' if kinds == [4] else 'packets'), 'first differing packet %d (pts %d, pic_type %d, %d vs %d bytes); %d of %d packets differ; pic_types of differing packets %s' % (k, x['pts'], x['pic_type'], x['size'], y['size'], nd, len(pa), kinds)
+            # which frame-header fields differ in the differing packets (when both runs were parsed): a root-cause-level discriminator
+            hdr = ''
+            fa, fb = a.get('frames'), b.get('frames')
+            if fa and fb and len(fa) == len(pa) and len(fb) == len(pb):
+                fields = set(); same_size = True
+                for j, (q, w) in enumerate(zip(pa, pb)):
+                    if q['hash'] == w['hash']: continue
+                    same_size = same_size and q['size'] == w['size']
+                    if len(fa[j]) != len(fb[j]): fields.add('nframes'); continue
+                    for u, v2 in zip(fa[j], fb[j]):
+                        fields |= set(kk for kk in u if u.get(kk) != v2.get(kk))
+                if fields and same_size: hdr = ':hdr[%s]' % ','.join(sorted(fields))
+            return ('packets:nonref_only' + hdr if kinds == [4] else 'packets' + hdr), 'first differing packet %d (pts %d, pic_type %d, %d vs %d bytes); %d of %d packets differ; pic_types of differing packets %s' % (k, x['pts'], x['pic_type'], x['size'], y['size'], nd, len(pa), kinds)
     ra = {r['pts']: r['hash'] for r in a.get('recons', [])}; rb = {r['pts']: r['hash'] for r in b.get('recons', [])}
     for pts in sorted(ra):
         if ra[pts] != rb.get(pts):
